@@ -10,7 +10,6 @@ def RepV (σ : State) (v : FVal) (q : Rat) (fx : Bool) : Prop :=
   | .int c => q = (c : Rat) ∧ fx = false
   | .dec n => q = (n : Rat) / SQ ∧ fx = true ∧ n.natAbs < 2 ^ 51
   | .ex e f => f = fx ∧ Rep σ ⟨e, f⟩ q ∧ (f = true → isSumObj e = false)
-  | .none => False
 
 theorem ensureF_rep {σ : State} {v : FVal} {q : Rat} {fx : Bool} {fe : FE} (h : RepV σ v q fx)
     (he : ensureF v = .ok fe) : fe.fixed = fx ∧ Rep σ fe q := by
@@ -28,7 +27,6 @@ theorem ensureF_rep {σ : State} {v : FVal} {q : Rat} {fx : Bool} {fe : FE} (h :
   | ex e f =>
     simp only [ensureF, Except.ok.injEq] at he; subst he
     exact ⟨h.1, h.2.1⟩
-  | none => exact h.elim
 
 /-- the integer operators of `Gen` are the rational operation on integers -/
 theorem opQ_int (op : FOp) (sop : SOp) (h : op.toS = some sop) (X Y : Int) :
@@ -40,12 +38,6 @@ theorem opQ_int (op : FOp) (sop : SOp) (h : op.toS = some sop) (X Y : Int) :
   · exact Rat.intCast_mul _ _
   · rw [floor_div_int]
   · rw [floor_div_int, Int.fmod_def, Rat.intCast_sub, Rat.intCast_mul]
-
-def fSumMinusNode (op : FOp) (x y : FVal) : Bool :=
-  op == .sub && (match x, y with
-    | .ex l _, .ex _ _ => isSumObj l
-    | .ex l _, .dec _ => isSumObj l
-    | _, _ => false)
 
 /-- `float // non-fixed expression`: `__rfloordiv__` truncates the float with `int()` first (exact only for
 positive divisors; under correspondence, outside the typing theorem) -/
@@ -66,8 +58,7 @@ theorem fMul_notsum (s v : FE) : isSumObj (fMul s v).e = false := by
   cases fs <;> cases fv <;> simp [fMul, isSumObj]
 
 theorem fDirect_rep (op : FOp) (s : FE) (value : FVal) (r : FE) (qa qb : Rat) (fb : Bool)
-    (hs : Rep σ s qa) (hv : RepV σ value qb fb) (h : fDirect op s value = .ok r)
-    (hsm : op = .sub → isSumObj s.e = false) :
+    (hs : Rep σ s qa) (hv : RepV σ value qb fb) (h : fDirect op s value = .ok r) :
     Rep σ r (opQ op s.fixed fb qa qb) ∧ r.fixed = tyOp op s.fixed fb ∧ isSumObj r.e = false := by
   unfold fDirect at h
   cases hev : ensureF value with
@@ -78,8 +69,7 @@ theorem fDirect_rep (op : FOp) (s : FE) (value : FVal) (r : FE) (qa qb : Rat) (f
     subst hf
     cases op <;> simp only [bind, Except.bind, pure, Except.pure, Except.ok.injEq] at h
     · subst h; exact ⟨fSum_add_rep σ s v qa qb hs hr, fSum_fixed s v .add, fSum_notsum _ s v⟩
-    · rw [hsm rfl] at h; simp only [Bool.false_eq_true, if_false] at h
-      subst h; exact ⟨fSum_sub_rep σ s v qa qb hs hr, fSum_fixed s v .sub, fSum_notsum _ s v⟩
+    · subst h; exact ⟨fSum_sub_rep σ s v qa qb hs hr, fSum_fixed s v .sub, fSum_notsum _ s v⟩
     · subst h; exact ⟨fMul_rep σ s v qa qb hs hr, fMul_fixed s v, fMul_notsum s v⟩
     · subst h; exact ⟨(fTruediv_rep σ s v qa qb hs hr).1, (fTruediv_rep σ s v qa qb hs hr).2, rfl⟩
     · subst h
@@ -111,7 +101,6 @@ theorem rFloordiv_rep (self : FE) (value : FVal) (r : FE) (qa qb : Rat) (fa : Bo
       F64.decConst_eq n h3] at hs ⊢
     exact sem_floordiv _ _ qa qb SQ (by rw [h1, SQ_eq]; grind) hs (scale_ne true)
   | ex e f => simp [rFloordiv, typeError] at h
-  | none => exact hv.elim
 
 end
 end Ebv.GenFixed
